@@ -66,7 +66,7 @@ Section Run.
   Variable orc : oracle.
   Variable vt : vtable.
   Let build_val := build_val fleaf (cf_default orc) fl_callable.
-  Let at_path := at_path fleaf (cf_validate orc) (cf_to_python orc) (cf_default orc) fl_callable fl_flag (vrun vt).
+  Let at_path := at_path_x fleaf (cf_validate orc) (cf_to_python orc) (cf_default orc) fl_callable fl_flag (vrun vt).
 
   (* Config(schema, **kw): keywords through _set_value on the still empty configuration, then defaults *)
   Fixpoint cf_ctor_kw (kw : list (str * pyval)) (w : world) (c : cfg) (dynamic : bool) (fs : list (str * fnode)) : world * cfg * oc :=
@@ -108,7 +108,7 @@ Section Run.
   Definition cf_step_obs (root root' : cfg) (o : oc) : pyval :=
     PTuple [o_oc o; diff_snap (o_cfg' root) (o_cfg' root'); same_ids (ids_cfg [] root) (ids_cfg [] root')].
 
-  Fixpoint cf_run_ops (ops : list (list pstep * cop)) (w : world) (root : cfg) (dynamic : bool) (vs : list N) (fs : list (str * fnode))
+  Fixpoint cf_run_ops (ops : list (list pstep * xop fleaf)) (w : world) (root : cfg) (dynamic : bool) (vs : list N) (fs : list (str * fnode))
     : list pyval :=
     match ops with
     | [] => []
@@ -121,7 +121,7 @@ End Run.
 (* stream `configfields`: (regex table, validator table, root dynamic?, root validators, schema, constructor keywords,
    history, observation of the implementation for cases flagged as possibly outside the model) *)
 Definition cfcase := (list (str * str * bool) * vtable * bool * list N * list (str * fnode) * list (str * pyval)
-                      * list (list pstep * cop) * option pyval)%type.
+                      * list (list pstep * xop fleaf) * option pyval)%type.
 
 (* does the model's observation mention Unmodelled anywhere (outcome of a step, or of the constructor) *)
 Definition obs_unmodelled (o : pyval) : bool :=
